@@ -299,7 +299,9 @@ pub fn eval_comptime_blocks<'a>(
                 let layout =
                     Layout::from_size_align(return_ty.size() as usize, return_ty.align() as usize)
                         .expect("Invalid layout");
-                let raw = unsafe { std::alloc::alloc(layout) };
+                // zeroed, so that the padding bytes of the result (which end up in the object file)
+                // don't depend on what the allocator happens to hand out
+                let raw = unsafe { std::alloc::alloc_zeroed(layout) };
 
                 let comptime =
                     unsafe { mem::transmute::<*const u8, fn(*mut u8) -> *mut u8>(code_ptr) };
